@@ -538,4 +538,14 @@ theorem disableEom_gn {ms : Option Nat} {c : ChanState} {sb : Bool}
         · exact lift_gn hi1 (fun c' h => waitForFall_gn hi1 h)
       · exact lift_gn hi1 (fun c' h => waitForFall_gn hi1 h)
 
+theorem RT_suffix (cfg : ChanCfg) (a b : List Slot) (h : RT cfg (a ++ b)) : RT cfg b := by
+  induction a with
+  | nil => exact h
+  | cons x rest ih => exact ih h.2
+
+theorem LPC_suffix (a b : List Slot) (h : LPC (a ++ b)) : LPC b := by
+  induction a with
+  | nil => exact h
+  | cons x rest ih => exact ih h.2
+
 end Pulser
